@@ -508,6 +508,49 @@ def analyse(f, ARR, body, summaries, mode="sites", ret_pairs=None, ctor_sinks=No
             sink_sites.append((bi, "term", "return", None, None, b["span"]))
     if not sink_sites:
         return None
+    # a writer that grows the buffer by `k` cells (`set_len(old_len + k)`, k = the length of the inserted line): when k is
+    # non-zero the array is non-empty afterwards, so both dimensions must be non-zero at every normal return (the restore of the
+    # dimensions may only be skipped for an empty line)
+    grow_keys = []
+    if mode == "sites" and writes_dims and entry_pairs:
+        from .dfx import Dfx as _Dfx, walk as _walk
+        dg = _Dfx(Body_shim(b))
+        for bl in b["blocks"]:
+            t = bl["term"]
+            if bl["cleanup"] or not t or t["k"] != "call" or (t["func"].get("fn") or {}).get("name") != "set_len" or len(t["args"]) < 2:
+                continue
+            a = t["args"][1]
+            if a["k"] not in ("copy", "move"):
+                continue
+            ds = Z.defs.get(a["p"]["local"], [])
+            rvb = None
+            if len(ds) == 1 and ds[0][0] == "rv":
+                rv0 = ds[0][1]
+                if rv0["k"] == "binop" and rv0["op"].startswith("Add"):
+                    rvb = rv0
+                elif rv0["k"] == "use" and rv0["o"]["k"] in ("copy", "move") and rv0["o"]["p"]["proj"]:
+                    ds2 = Z.defs.get(rv0["o"]["p"]["local"], [])
+                    if len(ds2) == 1 and ds2[0][0] == "rv" and ds2[0][1]["k"] == "binop" and ds2[0][1]["op"].startswith("Add"):
+                        rvb = ds2[0][1]
+                elif rv0["k"] == "use" and rv0["o"]["k"] in ("copy", "move") and not rv0["o"]["p"]["proj"]:
+                    # `let new_len = old_len + k; .. set_len(new_len)`
+                    ds2 = Z.defs.get(rv0["o"]["p"]["local"], [])
+                    for _ in range(3):
+                        if len(ds2) == 1 and ds2[0][0] == "rv" and ds2[0][1]["k"] == "use" and ds2[0][1]["o"]["k"] in ("copy", "move"):
+                            ds2 = Z.defs.get(ds2[0][1]["o"]["p"]["local"], [])
+                    if len(ds2) == 1 and ds2[0][0] == "rv" and ds2[0][1]["k"] == "binop" and ds2[0][1]["op"].startswith("Add"):
+                        rvb = ds2[0][1]
+            if rvb is None:
+                continue
+            for side, other in ((rvb["l"], rvb["r"]), (rvb["r"], rvb["l"])):
+                if side["k"] in ("copy", "move") and other["k"] in ("copy", "move"):
+                    eo, es = dg.expr(other), dg.expr(side)
+                    if any(x[0] == "call" and x[2] == "len" for x in _walk(eo)) and not any(x[0] == "call" and x[2] == "len" for x in _walk(es)):
+                        kk = Z.canon(side["p"])
+                        if kk and kk[0] == "L" and kk not in grow_keys:
+                            grow_keys.append(kk)
+                            if kk not in tracked:
+                                tracked.append(kk)
     # integer `match` scrutinees that are copies of tracked values (`match (a, b) { (0, 0) => .., .. }`): track the copy so
     # that the arm taken refines the original in the same valuation
     for _ in range(3):
@@ -569,6 +612,9 @@ def analyse(f, ARR, body, summaries, mode="sites", ret_pairs=None, ctor_sinks=No
                     for (rk, ck) in entry_pairs[:1]:
                         if (V[rk] == "Z") != (V[ck] == "Z"):
                             bad.add((V[rk], V[ck]))
+                        for gk in grow_keys:
+                            if V.get(gk) == "NZ" and (V[rk] == "Z" or V[ck] == "Z"):
+                                bad.add(("grown:" + V[rk], V[ck]))
                 else:
                     for r in Z.val_operand(ro, V) & {"Z", "NZ"}:
                         for c in Z.val_operand(co, V) & {"Z", "NZ"}:
@@ -743,6 +789,8 @@ def r_zero(f, serde_sinks=False):
                     msg = "%s can reach the call of the asserting constructor %s with exactly one zero dimension %s: it panics instead of returning an error" % (b.ident, kind[5:], sorted(e["bad"]))
                 elif kind == "return":
                     msg = "%s can return with exactly one of (num_rows, num_cols) zero: %s" % (b.ident, sorted(e["bad"]))
+                    if any(str(x[0]).startswith("grown:") for x in e["bad"]):
+                        msg = "%s can return with a zero dimension although it has grown the buffer by a non-zero number of cells (the restore of the dimensions is skipped for a non-empty line): the array keeps its data but reports no rows / columns" % b.ident
                 else:
                     msg = "%s builds a %s whose (rows, cols) may be %s: no guard enforces that empty arrays have no dimensions" % (b.ident, kind.split(":")[1], sorted(e["bad"]))
                 R.fail(b.ident, "%s#%d" % (kind, o), msg, b.where(e["span"]), {"states": sorted(e["bad"])})
